@@ -1030,7 +1030,9 @@ class Executor:
         if isinstance(base, VOpaque):
             return VOpaque(base.what + '.' + a)
         if is_vec(base):
-            return VOpaque('vec.' + a)
+            if a == 'T':
+                return vec_op('attr_T', base)         # transpose: an uninterpreted function of the operand
+            return VFunc('vecmethod:' + a, ('vecmethod', base, a))
         raise OutOfSubset('attribute %s of %r at line %d' % (a, base, node.lineno))
 
     def e_Subscript(self, node, st):
@@ -1109,6 +1111,12 @@ class Executor:
                 raise OutOfSubset('call of %s outside a statement position at line %d' % (f.name, node.lineno))
             if isinstance(f.fn, tuple) and f.fn[0] == 'method':
                 return self.call_method(st, f.fn[1], f.fn[2], args, kwargs, node)
+            if isinstance(f.fn, tuple) and f.fn[0] == 'vecmethod':
+                # methods of abstract matrices/vectors: uninterpreted functions of receiver and arguments
+                vb, mname = f.fn[1], f.fn[2]
+                if mname == 'dot' and len(args) == 1:
+                    return vec_op('MatMult', vb, args[0])
+                return vec_op('call_' + mname, vb, *args)
             if isinstance(f.fn, tuple) and f.fn[0] == 'setmethod':
                 view, mname = f.fn[1], f.fn[2]
                 c = st.heap[view.ref.id]
@@ -1452,7 +1460,17 @@ class Executor:
 
     def x_Try(self, s, st):
         if s.finalbody:
-            raise OutOfSubset('try/finally at line %d' % s.lineno)
+            # try/finally: the final body runs after every outcome of the protected part (normal, return, raise, break, continue);
+            # an outcome of the final body itself (return/raise) would replace the pending one -- not modelled
+            inner = ast.Try(body=s.body, handlers=s.handlers, orelse=s.orelse, finalbody=[])
+            ast.copy_location(inner, s)
+            res = []
+            for (s2, o2) in (self.x_Try(inner, st) if (s.handlers or s.orelse) else self.exec_block(s.body, st)):
+                for (s3, o3) in self.exec_block(s.finalbody, s2):
+                    if o3 is not None:
+                        raise OutOfSubset('control flow leaving a finally block at line %d' % s.lineno)
+                    res.append((s3, o2))
+            return res
         out = []
         for (s2, o2) in self.exec_block(s.body, st):
             if isinstance(o2, tuple) and o2[0] == 'raise':
